@@ -38,6 +38,8 @@ def arrays_for(case, dtype=np.float64):
             idx = np.indices(s) if len(s) else np.zeros((0,))
             par = sum(idx[k] for k in range(len(s)) if k != d) % 2 if len(s) else 0
             out.append(np.asarray(a + 900.0 * par, dtype=dtype))
+        elif p == "offset_neg":
+            out.append(np.asarray(values.generic(s, salt=7 * i) - 1e3, dtype=dtype))       # every value around -1000
         elif p == "masked_last":
             # logits / log-probabilities whose last class is masked out with -inf (never the target class in the cases using it)
             a = np.asarray(values.generic(s, salt=7 * i) * 2.0, dtype=dtype); a[..., -1] = -np.inf
@@ -486,6 +488,15 @@ def cases(tier, what="forward"):
                     if s == k and ok:
                         a2 = dict(args); del a2["stride"]
                         add(o, [(N, C, H, W)], a2); add(o, [(N, C, H, W)], a2, form="layer")
+    # --- max pooling windows that contain no real element at all (padding up to half the DILATED kernel allows it): -inf, as the
+    #     reference gives; and inputs whose every value is very negative (padding must still never win)
+    if fw:
+        add("max_pool1d", [(1, 1, 2)], {"kernel_size": 2, "stride": 1, "padding": 1, "dilation": 3})
+        add("max_pool1d", [(2, 2, 1)], {"kernel_size": 2, "stride": 1, "padding": 1, "dilation": 2}, form="layer")
+        add("max_pool2d", [(1, 1, 1, 3)], {"kernel_size": [2, 1], "stride": 1, "padding": [1, 0], "dilation": [2, 1]})
+        add("max_pool2d", [(1, 2, 2, 1)], {"kernel_size": [2, 2], "stride": 1, "padding": [1, 1], "dilation": [3, 2]}, form="layer")
+        for o, sh in (("max_pool1d", (1, 2, 4)), ("max_pool2d", (1, 1, 3, 3))):
+            add(o, [sh], {"kernel_size": 2, "stride": 1, "padding": 1, "dilation": 1}, pats=["offset_neg"])
     # --- extents around the limits of narrow integer types (index arithmetic in 8 / 16 bits), forward lattice only
     if fw:
         for L in (127, 128, 255, 256, 257):
